@@ -171,7 +171,11 @@ sha256_for_mh_sha256(const uint8_t *input_data, uint32_t *digest, const uint32_t
         else
                 i = ISAL_SHA256_BLOCK_SIZE;
 
-        *(uint64_t *) (buf + i - 8) = to_be64((uint64_t) len * 8);
+        /* Store the bit length with memcpy: the block function reads buf through a
+         * uint32_t pointer, so a store through a uint64_t pointer may be reordered
+         * after those reads under strict aliasing (seen with gcc -O2). */
+        const uint64_t len_in_bit = to_be64((uint64_t) len * 8);
+        memcpy(buf + i - 8, &len_in_bit, sizeof(len_in_bit));
 
         sha256_single_for_mh_sha256(buf, digest);
         if (i == (2 * ISAL_SHA256_BLOCK_SIZE))
